@@ -38,6 +38,19 @@ Section Spec.
                 exists w2, c_resume f a' k' s2 = (fst (g a k (cs s)), Build_st (snd (g a k (cs s))) w2))
     else same_as g (c_call f).
 
+  (* the same for does_same_as_function's OTHER function: its coroutine objects are its own (VPending COther) *)
+  Definition tok_args_other (v : val) : option (args * kwargs) :=
+    match v with VPending COther a k => Some (a, k) | _ => None end.
+  Definition behaves_as_other (g : base) (f : cdesc Sigma) : Prop :=
+    if c_mode f then
+      forall a k s, exists w1,
+        (c_call f a k s = (fst (g a k (cs s)), Build_st (cs s) w1) /\ snd (g a k (cs s)) = cs s
+         /\ is_final (fst (g a k (cs s))) = true)
+        \/ (exists v a' k', tok_args_other v = Some (a', k') /\ c_call f a k s = (ROk v, Build_st (cs s) w1) /\
+              forall s2, cs s2 = cs s ->
+                exists w2, c_resume f a' k' s2 = (fst (g a k (cs s)), Build_st (snd (g a k (cs s))) w2))
+    else same_as g (c_call f).
+
   (* producing the text of a value (repr / str) always succeeds and does nothing else: in particular the value's
      __repr__ is not itself a decorated callable (that would print), does not raise, does not touch the world *)
   Definition repr_harmless (cx : ctx Sigma) : Prop := forall v s, exists r, cx_repr cx v s = (ROk r, s).
@@ -118,6 +131,7 @@ Arguments same_as_at {Sigma} _ _ _ _.
 Arguments same_as {Sigma} _ _.
 Arguments same_as_on {Sigma} _ _ _.
 Arguments behaves_as {Sigma} _ _.
+Arguments behaves_as_other {Sigma} _ _.
 Arguments repr_harmless {Sigma} _.
 Arguments name_readable {Sigma} _ _.
 Arguments awaited_if_coro {Sigma} _.
